@@ -1,14 +1,19 @@
 (* C12 — what the correspondence check evaluates on every case. *)
-From Yv Require Export Common.Base C12.Model C12.Spec.
+From Yv Require Export Common.Base C12.Model C12.Spec C12.Script.
 
-(* One case: the pids in play, and the history as (operation, observation the
-   implementation made after it). *)
-Definition case := (list Z * list (op * obs))%type.
+(* CApi: the pids and ID texts in play, and the history as (operation,
+   observation the implementation made after it).
+   CScript: a script run on the simulated OS: the first snapshot (empty table),
+   then (command, snapshot after it). *)
+Inductive case :=
+| CApi (pids : list Z) (ids : list str) (h : list (op * obs))
+| CScript (pids : list Z) (ids : list str) (init : snap) (steps : list (scmd * snap)).
 
 Definition reused_pid (o : op) : option Z :=
-  match o with OInsert p _ => Some p | _ => None end.
+  match o with OInsert p _ _ => Some p | _ => None end.
 
-Fixpoint run_hist (pids : list Z) (s : joblist) (last : obs) (h : list (op * obs)) : verdict :=
+Fixpoint run_hist (pids : list Z) (ids : list str) (s : joblist) (last : obs)
+    (h : list (op * obs)) : verdict :=
   match h with
   | [] => 0%N
   | (o, ob) :: h =>
@@ -20,17 +25,60 @@ Fixpoint run_hist (pids : list Z) (s : joblist) (last : obs) (h : list (op * obs
           else
             let s' := step s o in
             if negb (op_ok s o) then 99%N       (* generator broke the precondition *)
-            else if obs_eqb (observe pids s') ob then run_hist pids s' ob h
+            else if obs_eqb (observe pids ids s') ob then run_hist pids ids s' ob h
             else
               (* correspondence broken; keep looking for an oracle failure *)
-              match run_hist pids s' ob h with
+              match run_hist pids ids s' ob h with
               | 0%N => 1%N
               | v => v
               end
       end
   end.
 
+(* scripts, pass 1: the oracles, on the implementation's snapshots only *)
+Fixpoint oracle_steps (st : sstate) (b : snap) (steps : list (scmd * snap)) : option N :=
+  match steps with
+  | [] => None
+  | (cmd, a) :: rest =>
+      match first_false 0 (inv_obs_clauses (sn_obs a)) with
+      | Some k => Some (2 + k)%N
+      | None =>
+          let reused := match cmd with SAsync _ _ => sn_bang a | _ => None end in
+          if negb (stable_obs reused (sn_obs b) (sn_obs a)) then Some 10%N
+          else match step_oracle st cmd b a with
+               | Some c => Some c
+               | None => oracle_steps (next_state st cmd b a) a rest
+               end
+      end
+  end.
+
+(* scripts, pass 2: the model in lock step *)
+Fixpoint model_steps (pids : list Z) (ids : list str) (s : joblist) (b : snap)
+    (steps : list (scmd * snap)) : verdict :=
+  match steps with
+  | [] => 0%N
+  | (cmd, a) :: rest =>
+      match model_step pids ids s cmd b a with
+      | Some s' => model_steps pids ids s' a rest
+      | None => 1%N
+      end
+  end.
+
 Definition run_case (c : case) : verdict :=
-  run_hist (fst c) empty (observe (fst c) empty) (snd c).
+  match c with
+  | CApi pids ids h => run_hist pids ids empty (observe pids ids empty) h
+  | CScript pids ids init steps =>
+      match first_false 0 (inv_obs_clauses (sn_obs init)) with
+      | Some k => (2 + k)%N
+      | None =>
+          match oracle_steps ss0 init steps with
+          | Some c => c
+          | None =>
+              if obs_eqb (observe pids ids empty) (sn_obs init)
+              then model_steps pids ids empty init steps
+              else 1%N
+          end
+      end
+  end.
 
 Definition run_cases := run_cases_with run_case.
